@@ -181,7 +181,7 @@ pub enum Op { Add, Subtract, Multiply, Divide, Modulo, Lt, Gt, Lte, Gte, Eq, Neq
 pub open spec fn op_assigns(o: Op) -> bool { o is AddAssign || o is SubAssign || o is MulAssign || o is DivAssign || o is ModAssign }
 // every operator that stores into its left operand
 pub open spec fn op_writes(o: Op) -> bool { op_assigns(o) || o is Unwrap }
-#[verifier::external_body] pub fn is_op_assign(o: &Op) -> (r: bool) ensures r == op_assigns(*o) { unimplemented!() }
+pub fn is_op_assign(o: &Op) -> (r: bool) ensures r == op_assigns(*o) { o.is_op_assign() }
 #[verifier::external_body] pub struct Flags { x: usize }
 // the recursive type query on an operand (abstract: arbitrary result)
 pub uninterp spec fn expr_type(e: &Expr, f: &Flags) -> Option<TypeLayout>;
@@ -225,10 +225,24 @@ def build_for_type(repo):
     check_closed(b, "Expr::for_type[BinOp]")
     # inside the Index arm `index` names the scrutinee: bind it
     txt = render(b, 1)
+    fia = src.fn(MATH, "is_op_assign", "impl Op")
+    bia = translate(fia["body"], [Rule("R9", "matches ! ( self , $$p )", "( match self { $$p => true , _ => false } )", count=1, why="matches! -> match"),
+                                  Rule("R1", "use Op :: * ;", "", why="glob import of the variants: written qualified")], log, "Op::is_op_assign")
+    bia = [("Op :: " + t) if t in ("AddAssign", "SubAssign", "MulAssign", "DivAssign", "ModAssign", "Add", "Subtract", "Multiply", "Divide", "Modulo", "Unwrap") else t for t in bia]
+    bia = lex(" ".join(bia))
+    check_closed(bia, "Op::is_op_assign")
     froot = src.fn(MATH, "root_ident", "impl Expr")
     broot = translate(froot["body"], [Rule("R1", "Value :: Ident", "ValueE :: Ident", why="enum renamed in the model")], log, "Expr::root_ident")
     check_closed(broot, "Expr::root_ident")
     gen = header(log, f"{MATH}: Expr::for_type, arm Expr::BinOp; Expr::root_ident") + prelude("parser.rs") + FT_SPEC + f"""
+impl Op {{
+    //@ OBL C10.op.is_op_assign
+    // the operators whose const test for_type runs: every compound assignment
+    pub fn is_op_assign(&self) -> (r: bool) ensures r == op_assigns(*self)
+    {{
+{render(bia, 2)}
+    }}
+}}
 impl Expr {{
     //@ OBL C10.root_ident
     pub fn root_ident(&self) -> (r: Option<&Ident>)
@@ -254,7 +268,8 @@ pub fn for_type_binop(lhs: &Expr, op: &Op, rhs: &Expr, flags: &Flags) -> (r: Res
 }} // verus!
 fn main() {{}}
 """
-    return gen, [Obl("C10.root_ident", ["C10"], fn="Expr::root_ident", desc="Expr::root_ident: the variable at the root of an index / field chain"),
+    return gen, [Obl("C10.op.is_op_assign", ["C10", "C03"], fn="Op::is_op_assign", desc="Op::is_op_assign: true exactly for += -= *= /= %= (the operators whose const test Expr::for_type runs)"),
+                 Obl("C10.root_ident", ["C10"], fn="Expr::root_ident", desc="Expr::root_ident: the variable at the root of an index / field chain"),
                  Obl("C10.for_type.binop", ["C10", "C03"], fn="for_type_binop",
                      desc="Expr::for_type (BinOp): `+= -= *= /= %=` and `?=` on a const name are rejected; an accepted operation has an entry in the operator table")], log
 
